@@ -170,8 +170,10 @@ type Session struct {
 	// GateByDialogue: no platform definition; the caller's own on-open hook answers the gate
 	// with an interactive dialogue whose first (and only) input is the hidden login secret,
 	// acquires the default level and sends the command
-	GateByDialogue bool     `json:"gate_by_dialogue,omitempty"`
-	OnClose        []string `json:"on_close,omitempty"`
+	GateByDialogue bool `json:"gate_by_dialogue,omitempty"`
+	// PlatVariant: the platform definition's on-open sequence sits in a variant (NewPlatformVariant)
+	PlatVariant bool     `json:"plat_variant,omitempty"`
+	OnClose     []string `json:"on_close,omitempty"`
 	// Recover: after the first timed-out operation the device catches up (stall fault lifted).
 	Recover bool `json:"recover,omitempty"`
 	// StopAfterError: stop the workload after this many failed operations (0 = never).
@@ -596,11 +598,21 @@ func buildSession(env *Env, sc *Session) (*SessionRun, error) {
 					},
 				},
 			}
+			if sc.PlatVariant {
+				// the sequence lives in a variant of the definition, the default section has none
+				d := def["default"].(map[string]interface{})
+				def["variants"] = map[string]interface{}{"behind_gate": map[string]interface{}{"network-on-open": d["network-on-open"]}}
+				d["network-on-open"] = []map[string]interface{}{{"operation": "acquire-priv"}}
+			}
 			var jb []byte
 			jb, err = json.Marshal(def)
 			if err == nil {
 				var pf *platform.Platform
-				pf, err = platform.NewPlatform(jb, "sim", opts...)
+				if sc.PlatVariant {
+					pf, err = platform.NewPlatformVariant(jb, "behind_gate", "sim", opts...)
+				} else {
+					pf, err = platform.NewPlatform(jb, "sim", opts...)
+				}
 				if err == nil {
 					sr.N, err = pf.GetNetworkDriver()
 				}
